@@ -617,7 +617,11 @@ func (exec *Executor) executeDecimalMethod(
 	case ratio == 0:
 		rounded = 0
 	case !math.IsInf(ratio, 0) && !math.IsInf(num*ratio, 0):
-		rounded = math.Round(num*ratio) / ratio
+		// A scaled value of 2^53 or more has no fraction left to round, and
+		// dividing it back would only add a rounding error.
+		if scaled := num * ratio; math.Abs(scaled) < 1<<53 {
+			rounded = math.Round(scaled) / ratio
+		}
 	}
 
 	if math.IsInf(rounded, 0) || math.IsNaN(rounded) {
